@@ -461,6 +461,16 @@ func runC17(r *mon.Run) {
 		}
 		buckets := map[string]*bucket{}
 		var base c17Snap
+		// warm-up, untraced: whatever an operation sets up on its FIRST use in a process
+		// (tables unpacked behind a sync.Once, memoised public constants) depends on the
+		// call history, not on the secret; it must not count against the first secret
+		for wu := 0; wu < 2; wu++ {
+			ws := secrets[(3+7*wu)%len(secrets)]
+			if ws.v.Sign() == 0 && !c.op.zeroOK {
+				ws = secrets[1]
+			}
+			c.op.prep(ws, c.variant)()
+		}
 		for si, s := range secrets {
 			if s.v.Sign() == 0 && !c.op.zeroOK {
 				continue
